@@ -43,7 +43,7 @@ add('C03', 'exploration',
     'Complete product: 48 transactions (1..3 in x 0..3 out x witness x class; thorough adds k<=1 field deviations) x 19 subscripts '
     '(CODESEPARATOR first/middle/last/repeated/only/inside push data, PUSHDATA1/2/4 spellings, 255-byte and >64 KiB scripts) x '
     'every index 0..len(vin) x all 256 hash types, RawSignatureHash and SignatureHash, with a full before/after snapshot '
-    '(serialisation, field values and object identities) of the caller\'s transaction.',
+    '(serialisation, field values and object identities) of the caller\'s transaction. Plus a 300-input transaction (indices across the one-byte count boundary) and a subscript holding a 16 MiB PUSHDATA4 push.',
     'DESIGN.md 3 C03', 'Oracle ref/sighash.py (preimage assembled from the model by ref/wire.py).',
     'bounded exhaustive enumeration (complete product incl. all 256 hash types) against a reference model')
 
@@ -68,7 +68,7 @@ add('C10', 'fault_enumeration',
     'alphabet string of length <=3 (<=4) through decode/encode; strings with characters outside the alphabet at every position; '
     'every version 0..255 x payload length 0..40,64,255 through Base58Check; every single substitution, deletion, insertion and '
     'truncation of 20 valid Base58Check strings (and every double substitution of one in thorough) judged by the reference '
-    'checksum rule; every decoding shorter than 5 bytes. Plus all strings of length 4..11 over {1,2,z} (zero-digit runs), 17 non-ASCII confusable characters at every position, and same-payload objects with different versions.',
+    'checksum rule; every decoding shorter than 5 bytes. Plus all strings of length 4..11 over {1,2,z} (zero-digit runs), 17 non-ASCII confusable characters at every position, and same-payload objects with different versions. Plus strings around every power of 58 and 256 (digit / byte length boundaries).',
     'DESIGN.md 3 C10', 'Oracle ref/base58.py (big-integer definition; bijection self-test).',
     'exhaustive single-fault enumeration + exhaustive short-input enumeration against a reference model')
 
@@ -77,7 +77,7 @@ add('C11', 'fault_enumeration',
     'programs; all strings with a valid checksum over every version symbol x payload length 0..66 x every last symbol (padding, '
     'length, version rules on both sides); every single substitution/deletion/insertion/truncation/case flip of 6 addresses; '
     'every double substitution in the data part (2 addresses quick, 6 thorough); every triple (and quadruple in thorough) '
-    'position set over 3 alternatives; every burst of 3 (4) adjacent symbols over all alternatives. Plus checksum-valid addresses under look-alike prefixes (prefix confusion) and 17 non-ASCII confusable characters substituted at every position in lower- and upper-case renderings.',
+    'position set over 3 alternatives; every burst of 3 (4) adjacent symbols over all alternatives. Plus checksum-valid addresses under look-alike prefixes (prefix confusion) and 17 non-ASCII confusable characters substituted at every position in lower- and upper-case renderings. Plus checksums made with foreign constants (bech32m, 0, other small values) refused, and upper-/mixed-case renderings of whole addresses.',
     'DESIGN.md 3 C11', 'Oracle ref/bech32.py: checksum as a polynomial remainder over GF(32) (independent of the library\'s polymod), '
     'validated on the BIP173 vectors; for multi-substitution families the linear syndrome decides checksum validity.',
     'exhaustive single/double fault enumeration (plus bounded multi-fault families) against a reference model')
@@ -107,7 +107,7 @@ add('C13', 'exploration',
     'r with 31 bytes, r>=2^255, high S before normalisation, 31-byte s) + unowned draws for signing (strict DER, low S, reference '
     'verification equation, byte-equality with the deterministic result); low-S normalisation grid; verification table over 12 '
     'signature classes x compressed/uncompressed/hybrid keys; public-key validity grid over every prefix byte x {33,65} bytes x '
-    'coordinate classes. Plus key-object histories: three public-key objects alive in every order, set_compressed/get_pubkey sequences on one CECKey, WIF across chain switches.',
+    'coordinate classes. Plus key-object histories: three public-key objects alive in every order, set_compressed/get_pubkey sequences on one CECKey, WIF across chain switches. Plus every signature of 0..9 bytes over a DER-shaped alphabet and odd-sized signatures (never accepted, never an exception other than a refusal).',
     'DESIGN.md 3 C13', 'Oracle ref/secp256k1.py (group-law self-tests, cross-checked against OpenSSL on oracle-made signatures). The ECDSA nonce is '
     'owned by proxying bitcoin.core.key._ssl (ECDSA_sign -> ECDSA_sign_ex); OpenSSL arithmetic itself is trusted.',
     'bounded exhaustive enumeration (complete products, nonce as enumerated environment answer) against a reference model')
@@ -144,7 +144,7 @@ add('C07', 'fault_enumeration',
     'failing operations (captured error state within limits); every prefix and every single-byte substitution of a valid '
     'signature, every prefix byte / truncation / substitution of 33- and 65-byte keys in CHECKSIG and CHECKMULTISIG; immutable '
     'and mutable transactions with 1..3 inputs and indices 0..len(vin)+1. After every case every transaction handed in is compared '
-    'with its baseline snapshot (serialisation, fields, object identities). Plus CHECKMULTISIG(VERIFY) with every kind of key-/signature-count operand after 0/180/200 counted operations (captured nOpCount within limits).',
+    'with its baseline snapshot (serialisation, fields, object identities). Plus CHECKMULTISIG(VERIFY) with every kind of key-/signature-count operand after 0/180/200 counted operations (captured nOpCount within limits). Plus calls with the flags argument omitted and 18 hash types (incl. undefined) x 0..3 outputs. A call that does not return within the engine watchdog is reported as a violation with the stuck shard.',
     'DESIGN.md 3 C07', 'No reference semantics needed. A dying worker (OpenSSL via ctypes) is attributed through the published current case.',
     'exhaustive fault enumeration (all short inputs, all single truncations/substitutions) with a containment oracle')
 
@@ -204,12 +204,12 @@ add('C18', 'fault_enumeration',
     '8,420 streams of <=3 frames from a pool of 20 (position after every message). Every pool frame: every truncation point, every '
     'byte x 4 corruptions judged by region (magic/checksum/payload must be rejected, command judged by what it names, length by '
     'the slice), a 9-value length-field catalogue with recomputed checksum and a sentinel frame (nothing read beyond the header for '
-    'lengths > MAX_SIZE), foreign-chain magic. Plus every history of <=4 (5) events over {select chain, frame 4 types, parse own-chain frames, parse a foreign-chain frame} and headers lists holding CBlock objects.',
+    'lengths > MAX_SIZE), foreign-chain magic. Plus every history of <=4 (5) events over {select chain, frame 4 types, parse own-chain frames, parse a foreign-chain frame} and headers lists holding CBlock objects. Plus reuse of parsed objects: parse, edit a field, re-frame, parse again.',
     'DESIGN.md 3 C18', 'Oracle ref/p2p.py (payload layouts from the protocol documentation; literal verack/ping frames).',
     'exhaustive single-fault enumeration on frames plus bounded exhaustive enumeration of messages and frame streams against a reference model')
 
 add('C19', 'model_checking',
-    'Explicit-state BFS over call/reply histories on a real Proxy with a scripted in-memory connection: events = 34 methods x 21 reply '
+    'Explicit-state BFS over call/reply histories on a real Proxy with a scripted in-memory connection: events = 34 methods x 25 reply '
     'kinds (result, 7 registered and 4 unregistered error codes, missing code, string/number error, error with result, missing '
     'result, non-JSON, empty body, HTML 500, no HTTP response), depth 4 (6), dedup on (observed id, the proxy\'s real id counter, '
     'outcome class, reply class); in every step exactly one request is issued, its id is strictly greater than every earlier one, '
